@@ -42,3 +42,8 @@ Section PdfSet.
     | _, _ => Err ValueError
     end.
 End PdfSet.
+
+(* CPython's hash of an integral float / int x with |x| < 2^61 - 1: x itself,
+   except hash(-1) = -2 (-1 is the C-level error code).  Used for the witness that
+   distinct grid values can collide. *)
+Definition cpython_hash_small (x : Z) : Z := if x =? -1 then -2 else x.
